@@ -2,7 +2,7 @@
 Fault enumeration on the implementation (single-bit flips and bursts <= 16 bits at every bit
 offset outside the length-determining fields) + correspondence with the model on every corrupted
 packet + exhaustive tie of crcmod's byte-update function to the bitwise Coq CRC."""
-import importlib
+import importlib, random
 from harness import pus_common as pc
 from harness.props import c02, c03, c07, c15
 from spacepackets.crc import CRC16_CCITT_FUNC
@@ -324,6 +324,16 @@ def streams(tier, rng):
     for part in (c02, c03, c15):
         cases += _route_cases(part.suffix_observable_cases(rng, big))
     yield "decode_with_suffix_every_observable", "exact", cases
+    # 9. "an uncorrupted packet always passes, whatever was set before packing": the live-object histories of the TC / TM
+    #    modules (every setter, sub-object edits through sp_header / the secondary header, packs with and without CRC
+    #    recalculation, calc_crc, to_space_packet in any order), judged by those modules' own history oracles
+    cases = []
+    for part in (c02, c03):
+        for sname, _mode, pcases in part.streams(tier, random.Random(rng.random())):
+            if sname in ("live_object_every_route_then_views", "histories_live_object"):
+                pcases = [c for c in pcases if c[0] in ROUTE_OPS]
+                cases += rng.sample(pcases, min(len(pcases), 5000 if big else 700))
+    yield "histories_then_every_route", "exact", cases
 
 
 def oracle_spec(case, ires):
